@@ -9,6 +9,8 @@ resume and rehydration) is not matched; (R3) waiter_event publication and timeou
 happen only when the waiter id is new; wait_for_event raises TimeoutError only for a timed-out
 waiter and always emits DeleteWaiter with it; a resolved waiter returns the resolved event;
 (R4) every waiter field that matching depends on is serialized or re-established by rehydration.
+(R4) the rehydration replay is decided structurally (shared with C12): one TickAddEvent per restored waiter that lost its
+requirements, carrying that waiter's own event, selected by has_requirements / not requirements only.
 Not decided: what the replayed step body does.
 """
 
@@ -183,12 +185,13 @@ def run(chk) -> None:
         for fld in ("waiter_id", "event", "waiting_for_event", "resolved_event", "has_requirements"):
             v = kwarg(c, fld)
             chk.ob("C10.R4", f"from_serialized restores `{fld}` from the serialized waiter", v is not None and fld in ast.unparse(expand(v, c, depth=1)), m=mst, node=c, fn=fs, instance=f"restore-waiter:{fld}", reason=f"{fld}={ast.unparse(v) if v is not None else None}")
-    _, rh = repo.func(f"{STATE}:BrokerState.rehydrate_with_ticks")
-    ok = any(isinstance(c, ast.Call) and last(call_name(c)) == "TickAddEvent" and "waiter.event" in ast.unparse(c) for c in ast.walk(rh))
-    chk.ob("C10.R4", "requirements are re-established by replaying the waiting step (rehydrate_with_ticks)", ok, m=mst, node=rh, fn=rh, instance="rehydrate:requirements", reason="no replay tick for waiters with missing requirements")
+    from ._engine import rehydrate_replays
+    rehydrate_replays(chk, "C10.R4", instance="rehydrate:requirements")
 
 
 TWINS = [
+    Twin("benign: rehydrate loop variable renamed", IS_REL, "            for waiter in sorted(\n                worker_state.collected_waiters, key=lambda x: x.waiter_id\n            ):\n                if waiter.has_requirements and not waiter.requirements:\n                    commands.append(\n                        TickAddEvent(event=waiter.event, step_name=step_name)\n                    )\n",
+         "            for w in sorted(worker_state.collected_waiters, key=lambda x: x.waiter_id):\n                if not w.has_requirements or w.requirements:\n                    continue\n                commands.append(TickAddEvent(event=w.event, step_name=step_name))\n", None),
     Twin("isinstance match", CL_REL, "is_match = type(tick.event) is wait_condition.waiting_for_event", "is_match = isinstance(tick.event, wait_condition.waiting_for_event)", "C10.R2"),
     Twin("requirements ignored", CL_REL, "            is_match = is_match and all(\n                getattr(tick.event, k, None) == v\n                for k, v in wait_condition.requirements.items()\n            )\n", "", "C10.R2"),
     Twin("any requirement suffices", CL_REL, "            is_match = is_match and all(\n                getattr(tick.event, k, None) == v", "            is_match = is_match and any(\n                getattr(tick.event, k, None) == v", "C10.R2"),
